@@ -119,6 +119,9 @@ def check_c16(tier):
     rep.add("negative_control", corrupted_records_rejected=len(rj))
     rep.assumptions = ["reference grammar = draft-09 section 4.2 restricted to the implemented item types, with the named deviations listed in tla/StructuredHeader.tla",
                        "parameter maps are compared as key-sorted lists (Go maps carry no order)"]
+    # calls on independent objects running in parallel do not interfere (Trace_Purity, race detector)
+    from purity_checks import parallel_cold
+    parallel_cold(rep, "C16", "structuredheader")
     return rep.finish()
 
 
